@@ -407,12 +407,16 @@ Section Main.
   Theorem step_ev_codes m o : is_ctor o = false -> ev_codes m (step m o) = [].
   Proof.
     intros Hnc. destruct o as [k v|k|a ps|a ps|k v|k d| | |a ps]; cbn [Model.step]; [| | | | | | | |discriminate Hnc].
-    - destruct (kv k) as [vk|]; [|apply raise_ev]. destruct (vv v) as [vvv|]; [|apply raise_ev]. apply store_ev.
-    - destruct (lookup k m) as [x|] eqn:El; [apply removed_ev, El | apply raise_ev].
+    - destruct (kv k) as [vk|]; [|apply raise_ev]. destruct (vv v) as [vvv|]; [|apply raise_ev].
+      destruct (hashable vk); [apply store_ev | apply raise_ev].
+    - destruct (hashable k); cbn [negb]; [|apply raise_ev].
+      destruct (lookup k m) as [x|] eqn:El; [apply removed_ev, El | apply raise_ev].
     - apply do_update_ev.
     - apply do_update_ev.
-    - destruct (lookup k m) as [x|] eqn:El; [apply ev_codes_silent, mapeq_refl|].
-      destruct (kv k) as [vk|]; [|apply raise_ev]. destruct (vv v) as [vvv|]; [|apply raise_ev]. apply store_ev.
+    - destruct (hashable k); cbn [negb]; [|apply raise_ev].
+      destruct (lookup k m) as [x|] eqn:El; [apply ev_codes_silent, mapeq_refl|].
+      destruct (kv k) as [vk|]; [|apply raise_ev]. destruct (vv v) as [vvv|]; [|apply raise_ev].
+      destruct (hashable vk); [apply store_ev | apply raise_ev].
     - destruct d as [d|]; destruct (lookup k m) as [x|] eqn:El;
         try (apply removed_ev, El); try apply raise_ev. apply ev_codes_silent, mapeq_refl.
     - destruct (last_item m) as [[k v0]|] eqn:El; [|apply raise_ev].
@@ -472,22 +476,29 @@ Section Main.
     intros Hf. destruct o as [k v|k|a ps|a ps|k v|k d| | |a ps]; cbn [Model.step].
     - destruct (kv k) as [vk|] eqn:Ek.
       + destruct (vv v) as [vvv|] eqn:Ev.
-        * apply ref_store with (ba := mset vk vvv m); [cbn; rewrite Ek, Ev; reflexivity | apply mapeq_refl].
+        * destruct (hashable vk) eqn:Eh.
+          -- apply ref_store with (ba := mset vk vvv m); [cbn; rewrite Ek, Ev, Eh; reflexivity | apply mapeq_refl].
+          -- eapply ref_raise; [cbn; rewrite Ek, Ev, Eh; reflexivity | reflexivity].
         * eapply ref_raise; [cbn; rewrite Ek, Ev; reflexivity | reflexivity].
       + eapply ref_raise; [cbn; rewrite Ek; reflexivity | reflexivity].
-    - destruct (lookup k m) as [x|] eqn:El.
-      + eapply ref_intro; [cbn; unfold has; rewrite El; reflexivity | reflexivity | apply mapeq_refl | reflexivity].
-      + eapply ref_raise; [cbn; unfold has; rewrite El; reflexivity | reflexivity].
+    - destruct (hashable k) eqn:Eh; cbn [negb]; [|eapply ref_raise; [cbn; rewrite Eh; reflexivity | reflexivity]].
+      destruct (lookup k m) as [x|] eqn:El.
+      + eapply ref_intro; [cbn; unfold has; rewrite Eh, El; reflexivity | reflexivity | apply mapeq_refl | reflexivity].
+      + eapply ref_raise; [cbn; unfold has; rewrite Eh, El; reflexivity | reflexivity].
     - apply ref_update. reflexivity.
     - apply ref_update. reflexivity.
-    - cbn [f6_trigger] in Hf. destruct (lookup k m) as [x|] eqn:El.
-      + eapply ref_intro; [cbn; rewrite El; reflexivity | reflexivity | apply mapeq_refl | apply retv_eqb_refl].
+    - cbn [f6_trigger] in Hf.
+      destruct (hashable k) eqn:Eh; cbn [negb]; [|eapply ref_raise; [cbn; rewrite Eh; reflexivity | reflexivity]].
+      destruct (lookup k m) as [x|] eqn:El.
+      + eapply ref_intro; [cbn; rewrite Eh, El; reflexivity | reflexivity | apply mapeq_refl | apply retv_eqb_refl].
       + destruct (kv k) as [vk|] eqn:Ek.
         * destruct (vv v) as [vvv|] eqn:Ev.
-          -- apply has_false in Hf. apply ref_store with (ba := mset vk vvv m);
-               [cbn; rewrite El, Ek, Ev, Hf; reflexivity | apply mapeq_refl].
-          -- eapply ref_raise; [cbn; rewrite El, Ek, Ev; reflexivity | reflexivity].
-        * eapply ref_raise; [cbn; rewrite El, Ek; reflexivity | reflexivity].
+          -- destruct (hashable vk) eqn:Ehv.
+             ++ cbn [andb] in Hf. apply has_false in Hf. apply ref_store with (ba := mset vk vvv m);
+                  [cbn; rewrite Eh, El, Ek, Ev, Ehv, Hf; reflexivity | apply mapeq_refl].
+             ++ eapply ref_raise; [cbn; rewrite Eh, El, Ek, Ev, Ehv; reflexivity | reflexivity].
+          -- eapply ref_raise; [cbn; rewrite Eh, El, Ek, Ev; reflexivity | reflexivity].
+        * eapply ref_raise; [cbn; rewrite Eh, El, Ek; reflexivity | reflexivity].
     - destruct d as [d|]; destruct (lookup k m) as [x|] eqn:El.
       + eapply ref_intro; [cbn; rewrite El; reflexivity | reflexivity | apply mapeq_refl | apply retv_eqb_refl].
       + eapply ref_intro; [cbn; rewrite El; reflexivity | reflexivity | apply mapeq_refl | apply retv_eqb_refl].
@@ -546,9 +557,11 @@ Section Main.
       cbn [f6_trigger] in Hf. cbn [Model.step] in Hin.
       destruct (lookup k m) as [x|] eqn:El; [discriminate|].
       destruct (kv k) as [vk|] eqn:Ek; [|discriminate]. destruct (vv v) as [vvv|] eqn:Ev; [|discriminate].
-      apply has_true in Hf. destruct Hf as [old Hold].
+      apply andb_true_iff in Hf. destruct Hf as [Hf Hh]. apply andb_true_iff in Hf. destruct Hf as [Ehk Ehv].
+      rewrite Ehk, Ehv in Hin. cbn [negb] in Hin.
+      apply has_true in Hh. destruct Hh as [old Hold].
       unfold store, Law.ref_codes in Hin. rewrite Hold in Hin.
-      cbn [ok mk o_ret o_out o_after builtin] in Hin. rewrite El, Ek, Ev, Hold in Hin.
+      cbn [ok mk o_ret o_out o_after builtin] in Hin. rewrite Ehk, El, Ek, Ev, Ehv, Hold in Hin. cbn [negb] in Hin.
       cbn [outcome_eqb chk app] in Hin. apply in_app_or in Hin. destruct Hin as [Hin|Hin].
       + destruct (mapeq (mset vk vvv m) m); cbn in Hin; [contradiction|]. destruct Hin as [<-|[]]. left; reflexivity.
       + destruct (retv_eqb (RVal vvv) (RVal old)); cbn in Hin; [contradiction|]. destruct Hin as [<-|[]]. right; reflexivity.
@@ -576,7 +589,8 @@ Section Main.
     intros Hid. induction ops as [|o ops IH]; intros m; [reflexivity|]. cbn [f6_free]. rewrite IH, andb_true_r.
     apply negb_true_iff. destruct o; try reflexivity. cbn [f6_trigger].
     destruct (lookup k m) eqn:El; [reflexivity|]. destruct (kv k) as [vk|] eqn:Ek; [|reflexivity].
-    apply Hid in Ek. subst vk. destruct (vv v); [|reflexivity]. apply has_false. exact El.
+    apply Hid in Ek. subst vk. destruct (vv v); [|reflexivity].
+    apply has_false in El. rewrite El, andb_false_r. reflexivity.
   Qed.
 
   Theorem run_law_nonconverting :
